@@ -1,12 +1,14 @@
 //! C17 - hierarchical clustering returns a valid dendrogram built from closest pairs.
 //!
-//! Set-up: a flat ontology (root 1, children 2..=9); input i is the singleton set {2+i}.
-//! The distance callback is a pure function of the CONTENT of the two sets it is handed
-//! (bit masks of input indices), so the same table serves the initial call (pairs of
-//! singletons) and, for `union`, the later calls (merged set vs. every other live set).
-//! Space: rank orders of the n(n-1)/2 pairwise distances (all of them for n <= 5,
-//! Kendall-tau balls around three base orders for n = 6, 7) x the four linkage methods.
-//! Oracle: structural dendrogram checks + a naive reference agglomerative clustering.
+//! Set-up: a small ontology (root 1; 2,3,4,6,8,9,10,11 children of 1; 5 child of 2; 7 child of 5).
+//! An input family is a list of n pairwise term-disjoint HpoSets (singletons of unrelated terms in
+//! the main spaces; singletons / pairs of RELATED terms and EMPTY sets in the dedicated spaces).
+//! The distance callback is a pure function of the exact CONTENT (term ids) of the two sets it is
+//! handed, so the same table serves the initial call and, for `union`, the later calls (merged set
+//! vs. every other live set). Every invocation is recorded.
+//! Space: rank orders of the base distances (all of them up to 10 base pairs, Kendall-tau balls
+//! around three base orders for n = 6, 7) x the four linkage methods.
+//! Oracle: structural dendrogram checks + callback accounting + a naive reference clustering.
 
 use crate::ctx::{fnv, guard, Ctx};
 use crate::drive;
@@ -20,12 +22,22 @@ use serde_json::{json, Value};
 use std::cell::RefCell;
 
 const ROOT: u32 = 1;
-/// input i is the singleton {FIRST + i}
-const FIRST: u32 = 2;
-const N_CHILDREN: usize = 8;
+/// (child, parent) links of the ontology; terms 1..=11
+const LINKS: [(u32, u32); 10] = [(2, 1), (3, 1), (4, 1), (6, 1), (8, 1), (9, 1), (10, 1), (11, 1), (5, 2), (7, 5)];
+const MAX_TERM: u32 = 11;
+/// pairwise unrelated terms for the "flat" families: input i is the singleton {FLAT[i]}
+const FLAT: [u32; 7] = [2, 3, 4, 6, 8, 9, 10];
 const MAX_N: usize = 7;
 /// largest cluster index + 1 for n = MAX_N (2n-1 nodes in the dendrogram)
 const MAX_NODES: usize = 2 * MAX_N - 1;
+
+/// Atoms of the distance table: bit t (1..=11) = term t; bits 0 and 12 = pseudo-atoms standing for
+/// an empty set (an empty set has no term the table could be keyed by). By CONTENT an empty set is
+/// always atom 0; in the initial call, which is keyed by input index, a second empty input is atom 12
+/// so that every unordered pair of input indices has its own distance.
+const EPS1: usize = 0;
+const EPS2: usize = 12;
+const MAX_ATOMS: usize = 13;
 
 #[derive(Clone, Copy, PartialEq, Eq, Debug)]
 enum Method {
@@ -65,26 +77,102 @@ fn pair_list(n: usize) -> Vec<(usize, usize)> {
     (0..n).flat_map(|i| (i + 1..n).map(move |j| (i, j))).collect()
 }
 
+fn bits_of(mask: u32) -> Vec<usize> {
+    (0..32).filter(|b| mask >> b & 1 == 1).collect()
+}
+
+/// Atoms of a set by its content.
+fn atomize(content: u32) -> u32 {
+    if content == 0 {
+        1 << EPS1
+    } else {
+        content
+    }
+}
+
+// ------------------------------------------------------------------------------------------
+// Input families
+// ------------------------------------------------------------------------------------------
+
+/// n input sets as term bit masks (bit t = term t); pairwise disjoint; at most two are empty.
+struct Inputs {
+    sets: Vec<u32>,
+    /// atoms of input i in the initial (index keyed) call
+    first_atoms: Vec<u32>,
+    /// involved atoms in order of first appearance: their pairs, in `pair_list` order, carry the ranks
+    atoms: Vec<usize>,
+    /// all terms of all inputs
+    all_terms: u32,
+}
+
+impl Inputs {
+    fn new(sets: &[u32]) -> Inputs {
+        let mut first_atoms = vec![];
+        let mut atoms = vec![];
+        let mut all_terms = 0u32;
+        let mut empties = 0;
+        for &s in sets {
+            assert!(s & 1 == 0 && s >> (MAX_TERM + 1) == 0, "C17 harness: input term out of range");
+            assert!(s & all_terms == 0, "C17 harness: input sets must be pairwise disjoint");
+            all_terms |= s;
+            let a = if s != 0 {
+                s
+            } else {
+                empties += 1;
+                assert!(empties <= 2, "C17 harness: at most two empty inputs");
+                if empties == 1 {
+                    1 << EPS1
+                } else {
+                    1 << EPS2
+                }
+            };
+            first_atoms.push(a);
+            atoms.extend(bits_of(a));
+        }
+        Inputs { sets: sets.to_vec(), first_atoms, atoms, all_terms }
+    }
+    fn flat(n: usize) -> Inputs {
+        let sets: Vec<u32> = (0..n).map(|i| 1u32 << FLAT[i]).collect();
+        Inputs::new(&sets)
+    }
+    fn n(&self) -> usize {
+        self.sets.len()
+    }
+    /// number of base distances (pairs of involved atoms)
+    fn m(&self) -> usize {
+        n_pairs(self.atoms.len())
+    }
+    fn describe(&self) -> String {
+        self.sets.iter().map(|&s| format!("{{{}}}", bits_of(s).iter().map(|t| t.to_string()).collect::<Vec<_>>().join(","))).collect::<Vec<_>>().join(" ")
+    }
+    fn to_json(&self) -> Value {
+        json!(self.sets.iter().map(|&s| bits_of(s)).collect::<Vec<_>>())
+    }
+}
+
+fn set_of(terms: &[u32]) -> u32 {
+    terms.iter().fold(0, |m, t| m | 1 << t)
+}
+
 // ------------------------------------------------------------------------------------------
 // Distance table
 // ------------------------------------------------------------------------------------------
 
-/// Distance "table", keyed by set content. The base value of the pair with rank r (0 = closest)
-/// among m pairs is the integer I_r = (r+1)*2^m + 2^r, scaled by 2^-(m+6): strictly increasing in
-/// the rank, roughly (r+1)/64, and the low-order bit pattern 2^r keeps means of different groups
-/// of base values apart (so `average` / `union` rarely produce ties; ties are nevertheless
-/// detected by the reference and never assumed absent).
-/// For two disjoint non-empty sets A, B: value = (sum of I over A x B) / (|A||B|) / 2^(m+6),
+/// Distance "table", keyed by set content (atoms). The base value of the atom pair with rank r
+/// (0 = closest) among m pairs is the integer I_r = (r+1)*2^m + 2^r, scaled by 2^-(m+6): strictly
+/// increasing in the rank, roughly (r+1)/64, and the low-order bit pattern 2^r keeps means of
+/// different groups of base values apart (so `average` / `union` rarely produce ties; ties are
+/// nevertheless detected by the reference and never assumed absent).
+/// For two disjoint non-empty atom sets A, B: value = (sum of I over A x B) / (|A||B|) / 2^(m+6),
 /// computed exactly in integers, divided in f64 and rounded once to f32 (size-weighted mean of
 /// the base distances between members). Symmetric by construction.
 /// In the family "one infinite distance" the pair of the largest rank is at +inf instead; a set pair
 /// whose members include that pair is at +inf as well (the mean of values one of which is +inf).
 /// `fixed` (n = 2 only) overrides the single base distance with an explicit f32 value.
 struct Table {
-    n: usize,
     m: usize,
-    ival: [[u64; MAX_N]; MAX_N],
-    inf: [[bool; MAX_N]; MAX_N],
+    ival: [[u64; MAX_ATOMS]; MAX_ATOMS],
+    inf: [[bool; MAX_ATOMS]; MAX_ATOMS],
     fixed: Option<f32>,
     scale: f64,
 }
@@ -140,15 +228,17 @@ fn base_int(fam: Family, rank: usize, m: usize) -> u64 {
 }
 
 impl Table {
-    /// `rank_of_pair[p]` = rank of the p-th pair of `pair_list(n)`.
-    fn new(n: usize, rank_of_pair: &[usize], fam: Family) -> Table {
-        let m = n_pairs(n);
+    /// `rank_of_pair[p]` = rank of the p-th pair (in `pair_list` order) of the involved atoms.
+    fn new(inp: &Inputs, rank_of_pair: &[usize], fam: Family) -> Table {
+        let atoms = &inp.atoms;
+        let m = n_pairs(atoms.len());
         assert_eq!(rank_of_pair.len(), m);
-        let mut ival = [[0u64; MAX_N]; MAX_N];
-        let mut inf = [[false; MAX_N]; MAX_N];
+        let mut ival = [[0u64; MAX_ATOMS]; MAX_ATOMS];
+        let mut inf = [[false; MAX_ATOMS]; MAX_ATOMS];
         let mut p = 0;
-        for i in 0..n {
-            for j in i + 1..n {
+        for x in 0..atoms.len() {
+            for y in x + 1..atoms.len() {
+                let (i, j) = (atoms[x], atoms[y]);
                 let v = base_int(fam, rank_of_pair[p], m);
                 ival[i][j] = v;
                 ival[j][i] = v;
@@ -159,18 +249,19 @@ impl Table {
                 p += 1;
             }
         }
-        Table { n, m, ival, inf, fixed: None, scale: fam.scale(m) }
+        Table { m, ival, inf, fixed: None, scale: fam.scale(m) }
     }
 
-    /// n = 2 with the explicit distance `v` between the two inputs.
-    fn fixed2(v: f32) -> Table {
+    /// Two singleton inputs with the explicit distance `v` between them.
+    fn fixed2(inp: &Inputs, v: f32) -> Table {
         assert!(!v.is_nan(), "C17 harness: NaN is not a distance");
-        let mut t = Table::new(2, &[0], Family::Spread);
+        assert!(inp.n() == 2 && inp.m() == 1);
+        let mut t = Table::new(inp, &[0], Family::Spread);
         t.fixed = Some(v);
         t
     }
 
-    /// Value for two disjoint non-empty masks.
+    /// Value for two disjoint non-empty atom masks.
     fn value(&self, a: u32, b: u32) -> f32 {
         debug_assert!(a != 0 && b != 0 && a & b == 0);
         if let Some(v) = self.fixed {
@@ -179,16 +270,17 @@ impl Table {
         let mut sum = 0u64;
         let mut cnt = 0u64;
         let mut infinite = false;
-        for i in 0..self.n {
-            if a >> i & 1 == 0 {
-                continue;
-            }
-            for j in 0..self.n {
-                if b >> j & 1 == 1 {
-                    sum += self.ival[i][j];
-                    cnt += 1;
-                    infinite |= self.inf[i][j];
-                }
+        let mut ra = a;
+        while ra != 0 {
+            let i = ra.trailing_zeros() as usize;
+            ra &= ra - 1;
+            let mut rb = b;
+            while rb != 0 {
+                let j = rb.trailing_zeros() as usize;
+                rb &= rb - 1;
+                sum += self.ival[i][j];
+                cnt += 1;
+                infinite |= self.inf[i][j];
             }
         }
         if infinite {
@@ -197,18 +289,22 @@ impl Table {
         ((sum as f64) / (cnt as f64) / self.scale) as f32
     }
 
-    fn base_json(&self) -> Value {
+    /// The distance the callback answers for two set contents outside the initial call.
+    fn by_content(&self, ca: u32, cb: u32) -> f32 {
+        self.value(atomize(ca), atomize(cb))
+    }
+
+    fn base_json(&self, inp: &Inputs) -> Value {
         let mut v = vec![];
-        for (i, j) in pair_list(self.n) {
-            v.push(json!({"sets": [i, j], "terms": [FIRST + i as u32, FIRST + j as u32], "distance": fj(self.value(1 << i, 1 << j))}));
+        for (i, j) in pair_list(inp.n()) {
+            v.push(json!({"inputs": [i, j], "terms": [bits_of(inp.sets[i]), bits_of(inp.sets[j])], "distance": fj(self.value(inp.first_atoms[i], inp.first_atoms[j]))}));
         }
         json!(v)
     }
 }
 
 /// Harness self-check: base values are exactly representable, distinct and increasing in the rank.
-fn selfcheck_values(n: usize, fam: Family) {
-    let m = n_pairs(n);
+fn selfcheck_values(m: usize, fam: Family) {
     let scale = fam.scale(m);
     let mut prev = -1.0f64;
     for r in 0..m {
@@ -227,11 +323,11 @@ fn selfcheck_values(n: usize, fam: Family) {
 #[derive(Default)]
 struct Rec {
     calls: u32,
-    /// pairs of the first invocation (content masks), in the order received
+    /// pairs of the first invocation (term content masks), in the order received
     first: Vec<(u32, u32)>,
-    /// (invocation, lhs mask, rhs mask) of all later invocations
+    /// (invocation, lhs content, rhs content) of all later invocations
     later: Vec<(u32, u32, u32)>,
-    /// sets containing a term that belongs to no input, or empty sets
+    /// terms received that belong to no input
     foreign: u32,
     /// pairs of one and the same content (the library asks union-vs-itself)
     selfpairs: u32,
@@ -250,18 +346,15 @@ impl Rec {
     }
 }
 
-fn mask_of(set: &HpoSet<'_>, n: usize, foreign: &mut u32) -> u32 {
+fn content_of(set: &HpoSet<'_>, allowed: u32, foreign: &mut u32) -> u32 {
     let mut m = 0u32;
     for t in set.iter() {
         let id = t.id().as_u32();
-        if id >= FIRST && id < FIRST + n as u32 {
-            m |= 1 << (id - FIRST);
+        if id <= MAX_TERM && allowed >> id & 1 == 1 {
+            m |= 1 << id;
         } else {
             *foreign += 1;
         }
-    }
-    if m == 0 {
-        *foreign += 1;
     }
     m
 }
@@ -278,41 +371,79 @@ struct Obs {
     indicies: Vec<usize>,
 }
 
-fn run_lib(ont: &Ontology, n: usize, method: Method, table: &Table, rec: &RefCell<Rec>) -> Result<Obs, String> {
+fn run_lib(ont: &Ontology, inp: &Inputs, method: Method, table: &Table, rec: &RefCell<Rec>) -> Result<Obs, String> {
+    let n = inp.n();
     let cb = |combs: Combinations<HpoSet<'_>>| -> Vec<f32> {
         let mut rec = rec.borrow_mut();
         let call = rec.calls;
         rec.calls += 1;
         let mut out = Vec::with_capacity(24);
-        for (a, b) in combs {
-            let mut foreign = 0;
-            let ma = mask_of(a, n, &mut foreign);
-            let mb = mask_of(b, n, &mut foreign);
-            rec.foreign += foreign;
-            if call == 0 {
-                rec.first.push((ma, mb));
-            } else {
-                rec.later.push((call, ma, mb));
-            }
-            let v = if ma == 0 || mb == 0 {
-                0.0
-            } else if ma == mb {
+        let by_content = |rec: &mut Rec, xa: u32, xb: u32| -> f32 {
+            let (a, b) = (atomize(xa), atomize(xb));
+            if a == b {
                 rec.selfpairs += 1;
                 0.0
-            } else if ma & mb != 0 {
+            } else if a & b != 0 {
                 rec.overlap += 1;
                 0.0
             } else {
-                table.value(ma, mb)
-            };
-            out.push(v);
+                table.value(a, b)
+            }
+        };
+        if call == 0 {
+            for (a, b) in combs {
+                let mut foreign = 0;
+                let xa = content_of(a, inp.all_terms, &mut foreign);
+                let xb = content_of(b, inp.all_terms, &mut foreign);
+                rec.foreign += foreign;
+                rec.first.push((xa, xb));
+            }
+            // initial call: keyed by input index (pair k is the k-th pair in Combinations order), which for
+            // non-empty inputs is the same as keyed by content; if the number of pairs is not the expected
+            // one (reported by the oracle) fall back to content
+            let expected = n_pairs(n);
+            if rec.first.len() == expected {
+                let mut k = 0;
+                for i in 0..n {
+                    for j in i + 1..n {
+                        let (xa, xb) = rec.first[k];
+                        if (xa, xb) == (inp.sets[i], inp.sets[j]) {
+                            out.push(table.value(inp.first_atoms[i], inp.first_atoms[j]));
+                        } else {
+                            let v = by_content(&mut rec, xa, xb);
+                            out.push(v);
+                        }
+                        k += 1;
+                    }
+                }
+            } else {
+                for k in 0..rec.first.len() {
+                    let (xa, xb) = rec.first[k];
+                    let v = by_content(&mut rec, xa, xb);
+                    out.push(v);
+                }
+            }
+        } else {
+            for (a, b) in combs {
+                let mut foreign = 0;
+                let xa = content_of(a, inp.all_terms, &mut foreign);
+                let xb = content_of(b, inp.all_terms, &mut foreign);
+                rec.foreign += foreign;
+                rec.later.push((call, xa, xb));
+                let v = by_content(&mut rec, xa, xb);
+                out.push(v);
+            }
         }
         out
     };
     guard(|| {
-        let sets = (0..n).map(|i| {
+        let sets = inp.sets.iter().map(|&s| {
             let mut g = HpoGroup::new();
-            g.insert(FIRST + i as u32);
+            let mut r = s;
+            while r != 0 {
+                g.insert(r.trailing_zeros());
+                r &= r - 1;
+            }
             HpoSet::new(ont, g)
         });
         let l = match method {
@@ -339,19 +470,21 @@ struct RefRun {
     tie_at: Option<usize>,
 }
 
-fn reference(n: usize, method: Method, table: &Table) -> RefRun {
+fn reference(inp: &Inputs, method: Method, table: &Table) -> RefRun {
+    let n = inp.n();
     let mut d = [[0f32; MAX_NODES]; MAX_NODES];
     let mut live = [false; MAX_NODES];
-    let mut mask = [0u32; MAX_NODES];
+    // true content (union of the members' terms) of every cluster
+    let mut content = [0u32; MAX_NODES];
     let mut size = [0usize; MAX_NODES];
     for i in 0..n {
         live[i] = true;
-        mask[i] = 1 << i;
+        content[i] = inp.sets[i];
         size[i] = 1;
     }
     for i in 0..n {
         for j in i + 1..n {
-            let v = table.value(1 << i, 1 << j);
+            let v = table.value(inp.first_atoms[i], inp.first_atoms[j]);
             d[i][j] = v;
             d[j][i] = v;
         }
@@ -383,7 +516,7 @@ fn reference(n: usize, method: Method, table: &Table) -> RefRun {
             out.tie_at = Some(k);
         }
         let new = nodes;
-        mask[new] = mask[a] | mask[b];
+        content[new] = content[a] | content[b];
         size[new] = size[a] + size[b];
         for c in 0..nodes {
             if !live[c] || c == a || c == b {
@@ -406,7 +539,8 @@ fn reference(n: usize, method: Method, table: &Table) -> RefRun {
                     }
                 }
                 Method::Average => (x + y) / 2.0,
-                Method::Union => table.value(mask[new], mask[c]),
+                // the user distance applied to the TRUE union of the merged sets and the other set
+                Method::Union => table.by_content(content[new], content[c]),
             };
             d[c][new] = nv;
             d[new][c] = nv;
@@ -437,7 +571,13 @@ fn fmt_merges(m: &[Merge]) -> Vec<Value> {
     m.iter().map(|&(l, r, d, s)| json!({"lhs": l, "rhs": r, "distance": fj(f32::from_bits(d)), "len": s})).collect()
 }
 
-fn check(n: usize, method: Method, obs: &Obs, rf: &RefRun, rec: &Rec) -> Option<Fail> {
+fn fmt_pairs(p: &[(u32, u32)]) -> String {
+    let v: Vec<String> = p.iter().map(|&(a, b)| format!("({:?},{:?})", bits_of(a), bits_of(b))).collect();
+    v.join(" ")
+}
+
+fn check(inp: &Inputs, method: Method, obs: &Obs, rf: &RefRun, rec: &Rec) -> Option<Fail> {
+    let n = inp.n();
     let site = method.site();
     // ---- callback accounting (first invocation)
     if rec.calls == 0 {
@@ -445,34 +585,27 @@ fn check(n: usize, method: Method, obs: &Obs, rf: &RefRun, rec: &Rec) -> Option<
     }
     let pairs = pair_list(n);
     {
-        let mut seen = vec![0u32; pairs.len()];
-        let mut bad = rec.first.len() != pairs.len();
-        for &(a, b) in &rec.first {
-            if a.count_ones() != 1 || b.count_ones() != 1 || a == b {
-                bad = true;
-                continue;
-            }
-            let (i, j) = (a.trailing_zeros() as usize, b.trailing_zeros() as usize);
-            let (i, j) = (i.min(j), i.max(j));
-            match pairs.iter().position(|&p| p == (i, j)) {
-                Some(p) => seen[p] += 1,
-                None => bad = true,
-            }
-        }
-        if bad || seen.iter().any(|&c| c != 1) {
-            return fail(site, "the initial distance call does not receive each unordered pair of inputs exactly once", format!("n={n}: received (content masks) {:?}", rec.first));
+        // as a multi-set of unordered content pairs
+        let norm = |a: u32, b: u32| (a.min(b), a.max(b));
+        let mut want: Vec<(u32, u32)> = pairs.iter().map(|&(i, j)| norm(inp.sets[i], inp.sets[j])).collect();
+        let mut got: Vec<(u32, u32)> = rec.first.iter().map(|&(a, b)| norm(a, b)).collect();
+        want.sort_unstable();
+        got.sort_unstable();
+        if want != got {
+            return fail(
+                site,
+                "the initial distance call does not receive each unordered pair of inputs exactly once",
+                format!("n={n}: expected {} pairs, received {}: {}", pairs.len(), rec.first.len(), fmt_pairs(&rec.first)),
+            );
         }
         for (k, &(i, j)) in pairs.iter().enumerate() {
-            if rec.first[k] != (1 << i, 1 << j) {
-                return fail("Combinations", "the initial distance call does not list the pairs in the documented order (i<j, lexicographic)", format!("n={n}: received (content masks) {:?}", rec.first));
+            if rec.first[k] != (inp.sets[i], inp.sets[j]) {
+                return fail("Combinations", "the initial distance call does not list the pairs in the documented order (i<j, lexicographic)", format!("n={n}: received {}", fmt_pairs(&rec.first)));
             }
         }
     }
     if rec.foreign > 0 {
-        return fail(site, "the distance callback receives a set that is not a non-empty union of input sets", format!("n={n}: {} such sets; later calls {:?}", rec.foreign, rec.later));
-    }
-    if rec.overlap > 0 {
-        return fail(site, "the distance callback receives two different overlapping sets (not two live clusters)", format!("n={n}: later calls {:?}", rec.later));
+        return fail(site, "the distance callback receives a term that belongs to no input set", format!("n={n}: {} such terms", rec.foreign));
     }
     // ---- cluster() / into_cluster()
     if obs.cluster.len() != n - 1 {
@@ -518,6 +651,43 @@ fn check(n: usize, method: Method, obs: &Obs, rf: &RefRun, rec: &Rec) -> Option<
             return fail("Linkage::indicies", "indicies() is not a permutation of 0..n", format!("n={n}: {:?}", obs.indicies));
         }
     }
+    // ---- later invocations (union): the new cluster must be presented as the exact union of the merged
+    //      sets (by the library's own merges), the other side must be a live cluster (or the new one itself)
+    if !rec.later.is_empty() {
+        let mut content = [0u32; MAX_NODES];
+        for i in 0..n {
+            content[i] = inp.sets[i];
+        }
+        for (k, &(l, r, _, _)) in obs.cluster.iter().enumerate() {
+            content[n + k] = content[l] | content[r];
+        }
+        for &(call, ca, cb) in &rec.later {
+            let k = call as usize - 1; // the invocation after merge k
+            if k >= n - 1 {
+                continue;
+            }
+            let new = n + k;
+            // live after merge k: every index <= new not consumed by merges 0..=k
+            let live_has = |c: u32| (0..=new).any(|x| content[x] == c && !obs.cluster[..=k].iter().any(|m| m.0 == x || m.1 == x));
+            if ca != content[new] || !live_has(cb) {
+                return fail(
+                    "Linkage::union",
+                    "distance callback received a set that is not the union of the merged sets",
+                    format!(
+                        "n={n}: after merge {k} = ({},{}) the new cluster is the union {:?}; the callback was asked for ({:?}, {:?})",
+                        obs.cluster[k].0,
+                        obs.cluster[k].1,
+                        bits_of(content[new]),
+                        bits_of(ca),
+                        bits_of(cb)
+                    ),
+                );
+            }
+        }
+    }
+    if rec.overlap > 0 {
+        return fail(site, "the distance callback receives two different overlapping sets (not two live clusters)", format!("n={n}: later calls {:?}", rec.later));
+    }
     // ---- closest pair, reported distance, update rule: against the reference, up to the first tie
     let upto = rf.tie_at.unwrap_or(n - 1);
     for k in 0..upto {
@@ -542,28 +712,38 @@ fn check(n: usize, method: Method, obs: &Obs, rf: &RefRun, rec: &Rec) -> Option<
     None
 }
 
-fn rust_snippet(f: &Facts, n: usize, method: Method, table: &Table) -> String {
+fn rust_snippet(f: &Facts, inp: &Inputs, method: Method, table: &Table) -> String {
+    let n = inp.n();
     let mut s = String::new();
     s.push_str("use hpo::{HpoSet, stats::Linkage, term::HpoGroup, utils::Combinations};\n");
     s.push_str(&f.to_rust(false));
-    s.push_str(&format!("let n = {n}usize; // input i is the singleton set {{{FIRST} + i}}\n"));
-    s.push_str("// integer base distances between inputs i and j; the distance of two disjoint sets is the mean over members, scaled\n");
-    let rows: Vec<String> = (0..n).map(|i| format!("{:?}", &table.ival[i][..n])).collect();
-    s.push_str(&format!("let ival: [[u64; {n}]; {n}] = [{}];\n", rows.join(", ")));
+    let sets: Vec<String> = inp.sets.iter().map(|&x| format!("vec!{:?}", bits_of(x))).collect();
+    s.push_str(&format!("let inputs: Vec<Vec<u32>> = vec![{}]; // the terms of the {n} input sets\n", sets.join(", ")));
+    s.push_str("// distance table over atoms: atom t = term t; an empty set is atom 0 (in the first call, which is keyed\n// by input index, a second empty input is atom 12); two sets are at the mean of the values of their atom pairs\n");
+    let firsts: Vec<String> = inp.first_atoms.iter().map(|&x| format!("vec!{:?}", bits_of(x))).collect();
+    s.push_str(&format!("let first_atoms: Vec<Vec<usize>> = vec![{}];\n", firsts.join(", ")));
+    let rows: Vec<String> = (0..MAX_ATOMS).map(|i| format!("{:?}", table.ival[i])).collect();
+    s.push_str(&format!("let ival: [[u64; {MAX_ATOMS}]; {MAX_ATOMS}] = [{}];\n", rows.join(", ")));
+    let rows: Vec<String> = (0..MAX_ATOMS).map(|i| format!("{:?}", table.inf[i])).collect();
+    s.push_str(&format!("let inf: [[bool; {MAX_ATOMS}]; {MAX_ATOMS}] = [{}]; // atom pairs at distance +inf\n", rows.join(", ")));
     s.push_str(&format!("let scale = {}f64;\n", table.scale));
-    let rows: Vec<String> = (0..n).map(|i| format!("{:?}", &table.inf[i][..n])).collect();
-    s.push_str(&format!("let inf: [[bool; {n}]; {n}] = [{}]; // pairs of inputs at distance +inf\n", rows.join(", ")));
-    s.push_str("let dist = |c: Combinations<HpoSet<'_>>| -> Vec<f32> { c.map(|(a, b)| {\n");
-    s.push_str(&format!("    let ia: Vec<usize> = a.iter().map(|t| (hpo::annotations::AnnotationId::as_u32(&t.id()) - {FIRST}) as usize).collect();\n"));
-    s.push_str(&format!("    let ib: Vec<usize> = b.iter().map(|t| (hpo::annotations::AnnotationId::as_u32(&t.id()) - {FIRST}) as usize).collect();\n"));
-    s.push_str("    if ia.iter().any(|i| ib.contains(i)) { return 0.0; } // the library also asks for a merged set against itself\n");
-    s.push_str("    if ia.iter().any(|i| ib.iter().any(|j| inf[*i][*j])) { return f32::INFINITY; }\n");
+    s.push_str("let value = |a: &Vec<usize>, b: &Vec<usize>| -> f32 {\n");
+    s.push_str("    if a == b { return 0.0; } // the library also asks for a merged set against itself\n");
     if let Some(v) = table.fixed {
         s.push_str(&format!("    if true {{ return f32::from_bits({:#x}); }} // = {v:e}\n", v.to_bits()));
     }
-    s.push_str("    let mut sum = 0u64; for i in &ia { for j in &ib { sum += ival[*i][*j]; } }\n");
-    s.push_str("    (sum as f64 / (ia.len() * ib.len()) as f64 / scale) as f32\n}).collect() };\n");
-    s.push_str(&format!("let sets = (0..n).map(|i| {{ let mut g = HpoGroup::new(); g.insert({FIRST}u32 + i as u32); HpoSet::new(&ont, g) }});\n"));
+    s.push_str("    if a.iter().any(|i| b.iter().any(|j| inf[*i][*j])) { return f32::INFINITY; }\n");
+    s.push_str("    let mut sum = 0u64; for i in a { for j in b { sum += ival[*i][*j]; } }\n");
+    s.push_str("    (sum as f64 / (a.len() * b.len()) as f64 / scale) as f32\n};\n");
+    s.push_str("let atoms = |x: &HpoSet<'_>| -> Vec<usize> { let v: Vec<usize> = x.iter().map(|t| hpo::annotations::AnnotationId::as_u32(&t.id()) as usize).collect(); if v.is_empty() { vec![0] } else { v } };\n");
+    s.push_str("let calls = std::cell::Cell::new(0usize);\n");
+    s.push_str("let dist = |c: Combinations<HpoSet<'_>>| -> Vec<f32> {\n");
+    s.push_str("    let call = calls.get(); calls.set(call + 1);\n");
+    s.push_str("    let pairs: Vec<(Vec<usize>, Vec<usize>)> = c.map(|(a, b)| (atoms(a), atoms(b))).collect();\n");
+    s.push_str(&format!("    let idx: Vec<(usize, usize)> = (0..{n}usize).flat_map(|i| (i + 1..{n}usize).map(move |j| (i, j))).collect();\n"));
+    s.push_str("    if call == 0 && pairs.len() == idx.len() { return idx.iter().map(|&(i, j)| value(&first_atoms[i], &first_atoms[j])).collect(); }\n");
+    s.push_str("    pairs.iter().map(|(a, b)| value(a, b)).collect()\n};\n");
+    s.push_str("let sets = inputs.iter().map(|ts| { let mut g = HpoGroup::new(); for t in ts { g.insert(*t); } HpoSet::new(&ont, g) });\n");
     s.push_str(&format!("let l = Linkage::{}(sets, dist);\n", method.name()));
     s.push_str("for c in l.cluster() { println!(\"{} {} {} {}\", c.lhs(), c.rhs(), c.distance(), c.len()); }\nprintln!(\"{:?}\", l.indicies());\n");
     s
@@ -586,22 +766,24 @@ struct Tally {
     ties: [u64; 4],
 }
 
-/// One clustering of n singletons under `method` with the given rank order; compares with the reference.
-fn one(ctx: &mut Ctx, env: &Env, n: usize, rank_of_pair: &[usize], table: &Table, method: Method, tally: &mut Tally) {
+/// One clustering of the inputs under `method` with the given rank order; compares with the reference.
+fn one(ctx: &mut Ctx, env: &Env, inp: &Inputs, rank_of_pair: &[usize], table: &Table, method: Method, tally: &mut Tally) {
+    let n = inp.n();
     tally.runs += 1;
     env.rec.borrow_mut().clear();
-    let rf = reference(n, method, table);
-    let got = run_lib(&env.ont, n, method, table, &env.rec);
+    let rf = reference(inp, method, table);
+    let got = run_lib(&env.ont, inp, method, table, &env.rec);
     let rec = env.rec.borrow();
     // the context keeps the detail of the first occurrence of a (site, signature) only: build it only then
     let detail = |extra: Value| {
         let exp: Vec<Value> = rf.merges.iter().map(|&(a, b, v, s)| json!({"pair": [a, b], "distance": fj(v), "len": s})).collect();
         json!({
-            "n": n, "method": method.name(), "rank_of_pair (pairs in order (0,1),(0,2),..)": rank_of_pair,
-            "base_distances": table.base_json(),
+            "n": n, "method": method.name(), "input_sets (terms)": inp.to_json(),
+            "rank_of_pair (pairs of the involved atoms in order (0,1),(0,2),..)": rank_of_pair, "atoms (term id; 0/12 = an empty set)": inp.atoms,
+            "base_distances": table.base_json(inp),
             "reference_merges": exp, "reference_first_tie_at_step": rf.tie_at,
             "observed": extra,
-            "rust": rust_snippet(&env.facts, n, method, table),
+            "rust": rust_snippet(&env.facts, inp, method, table),
         })
     };
     match got {
@@ -619,11 +801,12 @@ fn one(ctx: &mut Ctx, env: &Env, n: usize, rank_of_pair: &[usize], table: &Table
                     ctx.bump("non_union_later_callback_invocations", (rec.calls - 1) as u64);
                 }
             }
-            match check(n, method, &obs, &rf, &rec) {
+            match check(inp, method, &obs, &rf, &rec) {
                 Some(f) => {
                     let new = !ctx.violations.contains_key(&format!("{}|{}", f.site, f.sig));
                     let d = if new {
-                        detail(json!({"difference": f.det, "cluster()": fmt_merges(&obs.cluster), "into_cluster()": fmt_merges(&obs.into_cluster), "indicies()": obs.indicies, "callback_invocations": rec.calls}))
+                        detail(json!({"difference": f.det, "cluster()": fmt_merges(&obs.cluster), "into_cluster()": fmt_merges(&obs.into_cluster), "indicies()": obs.indicies, "callback_invocations": rec.calls,
+                            "later_callback_pairs (invocation, lhs terms, rhs terms)": rec.later.iter().map(|&(c, a, b)| json!([c, bits_of(a), bits_of(b)])).collect::<Vec<_>>()}))
                     } else {
                         Value::Null
                     };
@@ -655,27 +838,28 @@ fn one(ctx: &mut Ctx, env: &Env, n: usize, rank_of_pair: &[usize], table: &Table
 }
 
 /// All four (or the given) methods on one rank order; returns nothing, updates the tally.
-fn one_order(ctx: &mut Ctx, env: &Env, n: usize, rank_of_pair: &[usize], fam: Family, methods: &[Method], tally: &mut Tally) {
-    let table = Table::new(n, rank_of_pair, fam);
+fn one_order(ctx: &mut Ctx, env: &Env, inp: &Inputs, rank_of_pair: &[usize], fam: Family, methods: &[Method], tally: &mut Tally) {
+    let table = Table::new(inp, rank_of_pair, fam);
     for &m in methods {
-        one(ctx, env, n, rank_of_pair, &table, m, tally);
+        one(ctx, env, inp, rank_of_pair, &table, m, tally);
     }
 }
 
-fn flush(ctx: &mut Ctx, n: usize, fam: Family, orders: u64, tally: &Tally) {
+/// `tag` names the tie counters; `special` = the inputs / values are non-trivial by themselves.
+fn flush(ctx: &mut Ctx, n: usize, tag: &str, special: bool, orders: u64, tally: &Tally) {
     ctx.states(orders);
     ctx.execs(tally.runs);
     ctx.validateds(tally.exact);
     // constructor + cluster() + into_cluster() + indicies() + n-1 model merge steps
     ctx.transitions(tally.runs * (4 + n as u64 - 1));
-    if n >= 3 || fam == Family::InfTop {
+    if n >= 3 || special {
         ctx.nontrivials(tally.exact);
     }
     for &m in &METHODS {
         let t = tally.ties[m as usize];
         if t > 0 {
             ctx.bump("ties", t);
-            ctx.bump(&format!("ties/{}-values/n{n}/{}", fam.name(), m.name()), t);
+            ctx.bump(&format!("ties/{tag}/n{n}/{}", m.name()), t);
         }
     }
 }
@@ -721,9 +905,10 @@ fn arrangements(m: usize, k: usize) -> Vec<Vec<usize>> {
     out
 }
 
-/// Every rank order of the m pairs of n inputs: one case = all orders sharing a prefix (tail of <= 6 pairs).
-fn exhaustive(ctx: &mut Ctx, env: &Env, n: usize, fam: Family, methods: &[Method]) {
-    let m = n_pairs(n);
+/// Every rank order of the m base distances of the inputs: one case = all orders sharing a prefix (tail of <= 6 pairs).
+fn exhaustive(ctx: &mut Ctx, env: &Env, inp: &Inputs, fam: Family, tag: &str, special: bool, methods: &[Method]) {
+    let n = inp.n();
+    let m = inp.m();
     let tail = m.min(if m <= 3 { 0 } else if m <= 6 { 4 } else { 6 });
     let prefixes = arrangements(m, m - tail);
     for pre in &prefixes {
@@ -737,18 +922,18 @@ fn exhaustive(ctx: &mut Ctx, env: &Env, n: usize, fam: Family, methods: &[Method
         let mut orders = 0u64;
         loop {
             order[m - tail..].copy_from_slice(&rest);
-            one_order(ctx, env, n, &order, fam, methods, &mut tally);
+            one_order(ctx, env, inp, &order, fam, methods, &mut tally);
             orders += 1;
             if !next_permutation(&mut rest) {
                 break;
             }
         }
-        flush(ctx, n, fam, orders, &tally);
+        flush(ctx, n, tag, special || fam == Family::InfTop, orders, &tally);
         ctx.sample(|| {
-            let t = Table::new(n, &order, fam);
-            let r = reference(n, methods[0], &t);
-            json!({"n": n, "methods": methods.iter().map(|m| m.name()).collect::<Vec<_>>(), "rank_prefix": pre, "rank_orders_in_case": orders,
-                "last_rank_order": order, "its_base_distances": t.base_json(),
+            let t = Table::new(inp, &order, fam);
+            let r = reference(inp, methods[0], &t);
+            json!({"n": n, "input_sets (terms)": inp.to_json(), "methods": methods.iter().map(|m| m.name()).collect::<Vec<_>>(), "rank_prefix": pre, "rank_orders_in_case": orders,
+                "last_rank_order": order, "its_base_distances": t.base_json(inp),
                 "its_reference_merges": r.merges.iter().map(|&(a, b, v, s)| json!([a, b, fj(v), s])).collect::<Vec<_>>()})
         });
     }
@@ -826,7 +1011,8 @@ fn base_orders(m: usize) -> Vec<(&'static str, Vec<usize>)> {
 /// Rank orders within d adjacent transpositions (of the sorted list of pairs) of three base orders.
 /// `sorted[r]` = pair index with rank r = base[q[r]] for q near the identity.
 fn near_orders(ctx: &mut Ctx, env: &Env, n: usize, d: usize, methods: &[Method]) -> u64 {
-    let m = n_pairs(n);
+    let inp = Inputs::flat(n);
+    let m = inp.m();
     let bases = base_orders(m);
     let mut cases = 0u64;
     for_each_inversion_table(m, d, |code| {
@@ -842,54 +1028,105 @@ fn near_orders(ctx: &mut Ctx, env: &Env, n: usize, d: usize, methods: &[Method])
             for r in 0..m {
                 rank_of_pair[base[q[r]]] = r;
             }
-            one_order(ctx, env, n, &rank_of_pair, Family::Spread, methods, &mut tally);
+            one_order(ctx, env, &inp, &rank_of_pair, Family::Spread, methods, &mut tally);
             last = rank_of_pair;
         }
-        flush(ctx, n, Family::Spread, bases.len() as u64, &tally);
-        ctx.sample(|| json!({"n": n, "transpositions_applied (as permutation of sorted positions)": q, "base_orders": bases.iter().map(|b| b.0).collect::<Vec<_>>(), "rank_of_pair_for_last_base": last}));
+        flush(ctx, n, "spread-values", false, bases.len() as u64, &tally);
+        ctx.sample(|| json!({"n": n, "input_sets (terms)": inp.to_json(), "transpositions_applied (as permutation of sorted positions)": q, "base_orders": bases.iter().map(|b| b.0).collect::<Vec<_>>(), "rank_of_pair_for_last_base": last}));
     });
     cases
 }
 
+/// Input families whose sets contain related terms (2 > 5 > 7 is a chain of ancestors; 1 is the root).
+fn related_families(n: usize, atoms: usize) -> Vec<Inputs> {
+    let s = |t: &[u32]| set_of(t);
+    let all: Vec<Vec<u32>> = vec![
+        // n = 2
+        vec![s(&[2]), s(&[5])],
+        vec![s(&[5]), s(&[2])],
+        vec![s(&[1]), s(&[7])],
+        vec![s(&[2, 3]), s(&[5])],
+        vec![s(&[7]), s(&[2, 5])],
+        // n = 3
+        vec![s(&[2]), s(&[5]), s(&[3])],
+        vec![s(&[2]), s(&[5]), s(&[7])],
+        vec![s(&[7]), s(&[3]), s(&[2])],
+        vec![s(&[5]), s(&[1]), s(&[3])],
+        vec![s(&[2, 3]), s(&[5]), s(&[4])],
+        vec![s(&[2, 5]), s(&[7]), s(&[3])],
+        // n = 4
+        vec![s(&[2]), s(&[5]), s(&[3]), s(&[4])],
+        vec![s(&[2]), s(&[5]), s(&[7]), s(&[3])],
+        vec![s(&[7]), s(&[3]), s(&[5]), s(&[2])],
+        vec![s(&[1]), s(&[2]), s(&[5]), s(&[7])],
+        vec![s(&[2, 3]), s(&[5]), s(&[4]), s(&[6])],
+        vec![s(&[3]), s(&[2, 5]), s(&[4]), s(&[7])],
+    ];
+    all.iter().map(|v| Inputs::new(v)).filter(|i| i.n() == n && i.atoms.len() == atoms).collect()
+}
+
+/// Input families with `empties` empty sets among n inputs, every choice of positions; the others are
+/// singletons of `terms` in order.
+fn empty_families(n: usize, empties: usize, terms: &[u32]) -> Vec<Inputs> {
+    let mut out = vec![];
+    for mask in 0u32..(1 << n) {
+        if mask.count_ones() as usize != empties {
+            continue;
+        }
+        let mut it = terms.iter();
+        let sets: Vec<u32> = (0..n).map(|i| if mask >> i & 1 == 1 { 0 } else { 1u32 << *it.next().expect("C17 harness: enough terms") }).collect();
+        out.push(Inputs::new(&sets));
+    }
+    out
+}
+
+fn describe_all(f: &[Inputs]) -> String {
+    f.iter().map(|i| format!("[{}]", i.describe())).collect::<Vec<_>>().join(", ")
+}
+
 pub fn run(ctx: &mut Ctx) {
-    ctx.rule = "an input = (n singleton sets, a rank order of the n(n-1)/2 pairwise distances, a linkage method); the pair of rank r gets the dyadic base distance ((r+1)*2^m + 2^r)/2^(m+6) (m = number of pairs; spaces named linear-/geometric-values use (r+1)/64 resp. 3^r/2^16 instead; spaces named one-infinite-distance put the pair of the largest rank at f32::INFINITY; n2/explicit-distance-values uses the listed f32 values); \
-        a case = a block of rank orders sharing a prefix (n <= 5) or one near-base rank order applied to three base orders (n = 6,7), each run under the listed methods; inputs are distinct by construction; \
+    ctx.rule = "an input = (n pairwise term-disjoint input sets, a rank order of the base distances, a linkage method); base distances are those between the atoms (terms; an empty set counts as one pseudo-atom) of the inputs - for singleton inputs these are the n(n-1)/2 pairwise distances - and two sets are at the mean of the base distances between their atoms; \
+        the pair of rank r gets the dyadic base distance ((r+1)*2^m + 2^r)/2^(m+6) (m = number of pairs; spaces named linear-/geometric-values use (r+1)/64 resp. 3^r/2^16 instead; spaces named one-infinite-distance put the pair of the largest rank at f32::INFINITY; n2/explicit-distance-values uses the listed f32 values); \
+        a case = a block of rank orders sharing a prefix (up to 10 base distances) or one near-base rank order applied to three base orders (n = 6,7), each run under the listed methods; inputs are distinct by construction; \
         states = rank orders, executions = clusterings, validated = clusterings compared merge by merge (pair, distance, len) with the reference without meeting a tie; non-trivial = validated and (n >= 3 \
-        (at least one distance to a newly formed cluster decides or is reported by a later merge) or a border value (+inf, 0, f32::MAX, f32::MIN_POSITIVE) is among the distances); extra.ties = clusterings where the reference met two live pairs at the same minimal distance (exact comparison stopped at that step, structural checks still applied)"
+        (at least one distance to a newly formed cluster decides or is reported by a later merge) or a border value (+inf, 0, f32::MAX, f32::MIN_POSITIVE) is among the distances or an input is empty / related to another input); extra.ties = clusterings where the reference met two live pairs at the same minimal distance (exact comparison stopped at that step, structural checks still applied)"
         .into();
     ctx.assumptions = vec![
         "symmetric distance functions only: the callback is a pure function of the unordered content of the two sets".into(),
         "no ties are constructed; where the size-weighted/plain means produce equal f32 values at the minimum, the run is counted in extra.ties and compared only up to that step".into(),
         "`average` is checked against the documented rule (mean of the distances of the two merged parts, not size-weighted UPGMA)".into(),
-        "for `union` the user distance of (merged set, other live set) is the size-weighted mean of the base distances between members, computed by the same function in the callback and in the reference".into(),
-        "only the FIRST callback invocation is subject to the accounting oracle; later invocations are recorded (union also asks for the merged set against itself - counted in extra, ignored by the library, not a violation)".into(),
+        "for `union` the user distance of (merged set, other live set) is the mean of the base distances between the terms of the TRUE union of the merged input sets and the terms of the other set, computed by the same function in the callback (from the content it is handed) and in the reference (from the inputs)".into(),
+        "the FIRST callback invocation is subject to the accounting oracle (each unordered pair of inputs exactly once, in Combinations order); of later invocations (union) it is demanded that the left set is exactly the union of the two sets just merged and the right set a live cluster or that union itself (union also asks for the merged set against itself - counted in extra, ignored by the library, not a violation)".into(),
+        "empty input sets are legal inputs (e.g. the set of an unannotated gene) and are clustered like any other; with two empty inputs the initial call is keyed by input index (both have the same content), so every unordered pair of inputs has its own distance; afterwards an empty set is keyed by its (empty) content, which makes two live empty sets equidistant to a new cluster (counted as ties when minimal)".into(),
+        "input sets may contain terms related by is_a (an ancestor in one input, its descendant in another or the same): clustering must not normalise the content of merged sets".into(),
         "(lhs, rhs) of a merge is compared as an unordered pair".into(),
         "+inf, 0.0, f32::MAX and f32::MIN_POSITIVE are legal distances (e.g. -ln of a similarity of 0 is +inf); the merge at +inf must be reported at +inf; NaN and negative values are not used".into(),
         "n = 0 and n = 1 are don't-care: executed under catch_unwind, nothing is demanded".into(),
-        "set content: singletons over a flat Builder ontology (root 1, children 2..=9, build_minimal); clustering never looks at the ontology structure itself".into(),
+        "ontology: Builder, build_minimal; root 1; 2,3,4,6,8,9,10,11 children of 1; 5 child of 2; 7 child of 5; the main spaces use singletons of the pairwise unrelated terms 2,3,4,6,8,9,10".into(),
     ];
 
     // ---- set-up
-    let mut facts = Facts { terms: vec![Facts::term(ROOT, "root")], edges: vec![], anns: vec![], version: (0, 0, 0) };
-    for i in 0..N_CHILDREN {
-        let id = FIRST + i as u32;
+    let mut facts = Facts { terms: vec![], edges: vec![], anns: vec![], version: (0, 0, 0) };
+    for id in ROOT..=MAX_TERM {
         facts.terms.push(Facts::term(id, &format!("T{id}")));
-        facts.edges.push((id, ROOT));
+    }
+    for &(c, p) in &LINKS {
+        facts.edges.push((c, p));
     }
     let ont = match drive::build(&facts, Mode::Minimal) {
         Ok(o) => o,
         Err(e) => {
-            ctx.space("setup", "flat ontology with 9 terms");
+            ctx.space("setup", "ontology with 11 terms");
             ctx.violation("Builder", "construction fails on valid facts", json!({"facts": facts.to_json(), "observed": e}));
             return;
         }
     };
     let env = Env { ont, facts, rec: RefCell::new(Rec::default()) };
     for n in 2..=MAX_N {
-        selfcheck_values(n, Family::Spread);
-        selfcheck_values(n, Family::Linear);
+        selfcheck_values(n_pairs(n), Family::Spread);
+        selfcheck_values(n_pairs(n), Family::Linear);
         if n <= 5 {
-            selfcheck_values(n, Family::Geometric);
+            selfcheck_values(n_pairs(n), Family::Geometric);
         }
     }
     let thorough = ctx.tier.thorough();
@@ -899,7 +1136,7 @@ pub fn run(ctx: &mut Ctx) {
         let m = n_pairs(n);
         let total: u64 = (1..=m as u64).product();
         ctx.space(&format!("n{n}/all-rank-orders/all-methods"), &format!("n = {n}: all {total} rank orders of the {m} pairwise distances x 4 methods"));
-        exhaustive(ctx, &env, n, Family::Spread, &METHODS);
+        exhaustive(ctx, &env, &Inputs::flat(n), Family::Spread, "spread-values", false, &METHODS);
     }
 
     // ---- one infinite distance: the pair of the largest rank is at +inf, n = 2, 3, 4 (n = 5: thorough, below)
@@ -910,7 +1147,7 @@ pub fn run(ctx: &mut Ctx) {
             &format!("n{n}/all-rank-orders/one-infinite-distance/all-methods"),
             &format!("n = {n}: all {total} rank orders of the {m} pairwise distances, the pair of the largest rank at f32::INFINITY (a set pair containing it is at +inf too) x 4 methods"),
         );
-        exhaustive(ctx, &env, n, Family::InfTop, &METHODS);
+        exhaustive(ctx, &env, &Inputs::flat(n), Family::InfTop, "one-infinite-values", true, &METHODS);
     };
     for n in 2..=4usize {
         infinite(ctx, n);
@@ -922,15 +1159,60 @@ pub fn run(ctx: &mut Ctx) {
         if !ctx.take() {
             continue;
         }
-        let table = Table::fixed2(v);
+        let inp = Inputs::flat(2);
+        let table = Table::fixed2(&inp, v);
         let mut tally = Tally::default();
         for &method in &METHODS {
-            one(ctx, &env, 2, &[0], &table, method, &mut tally);
+            one(ctx, &env, &inp, &[0], &table, method, &mut tally);
         }
-        flush(ctx, 2, Family::Spread, 1, &tally);
-        ctx.nontrivials(tally.exact); // a border value of the distance is what makes these cases interesting
+        flush(ctx, 2, "explicit-values", true, 1, &tally);
         ctx.sample(|| json!({"n": 2, "distance": fj(v), "distance_bits": format!("{:#x}", v.to_bits()), "methods": METHODS.iter().map(|m| m.name()).collect::<Vec<_>>()}));
     }
+
+    // ---- inputs with related terms (ancestor in one input, descendant in another / the same), 1- and 2-term sets
+    let related = |ctx: &mut Ctx, n: usize, atoms: usize| {
+        let fams = related_families(n, atoms);
+        let m = n_pairs(atoms);
+        let total: u64 = (1..=m as u64).product();
+        ctx.space(
+            &format!("n{n}/related-terms-{atoms}/all-rank-orders/all-methods"),
+            &format!("n = {n}, input sets over {atoms} terms some of which are ancestors of others (2 > 5 > 7, root 1): {} input families {} x all {total} rank orders of the {m} term-pair base distances x 4 methods", fams.len(), describe_all(&fams)),
+        );
+        for inp in &fams {
+            exhaustive(ctx, &env, inp, Family::Spread, &format!("related-terms-{atoms}"), true, &METHODS);
+        }
+    };
+    related(ctx, 2, 2);
+    related(ctx, 2, 3);
+    related(ctx, 3, 3);
+    related(ctx, 3, 4);
+    related(ctx, 4, 4);
+
+    // ---- empty input sets: one (n = 2, 3, 4) or two (n = 3, 4) of the inputs are empty, every position
+    let with_empties = |ctx: &mut Ctx, n: usize, empties: usize, terms: &[u32], what: &str| {
+        let mut fams = empty_families(n, empties, terms);
+        if n >= 5 {
+            // 10 base distances = 10! rank orders per family: the empty set first and last only
+            let last = fams.pop().expect("C17 harness: families");
+            fams.truncate(1);
+            fams.push(last);
+        }
+        let m = fams[0].m();
+        let total: u64 = (1..=m as u64).product();
+        ctx.space(
+            &format!("n{n}/{what}/all-rank-orders/all-methods"),
+            &format!("n = {n}, {empties} empty input set(s) at every position (n = 5: first and last position), the others singletons of {terms:?}: {} input families {} x all {total} rank orders of the {m} pairwise distances x 4 methods", fams.len(), describe_all(&fams)),
+        );
+        for inp in &fams {
+            exhaustive(ctx, &env, inp, Family::Spread, what, true, &METHODS);
+        }
+    };
+    with_empties(ctx, 2, 1, &[2], "one-empty-input");
+    with_empties(ctx, 3, 1, &[2, 3], "one-empty-input");
+    with_empties(ctx, 3, 2, &[2], "two-empty-inputs");
+    with_empties(ctx, 4, 1, &[2, 3, 4], "one-empty-input");
+    with_empties(ctx, 4, 1, &[2, 5, 7], "one-empty-input-related-terms");
+    with_empties(ctx, 4, 2, &[2, 3], "two-empty-inputs");
 
     // ---- n = 0, 1: don't-care, must merely not take the harness down
     ctx.space("n0-n1/dont-care", "n in {0,1} x 4 methods, executed under catch_unwind, nothing demanded");
@@ -942,9 +1224,10 @@ pub fn run(ctx: &mut Ctx) {
             ctx.state();
             ctx.exec();
             ctx.transitions(4);
-            let table = Table::new(n, &[], Family::Spread);
+            let inp = Inputs::flat(n);
+            let table = Table::new(&inp, &[], Family::Spread);
             env.rec.borrow_mut().clear();
-            match run_lib(&env.ont, n, method, &table, &env.rec) {
+            match run_lib(&env.ont, &inp, method, &table, &env.rec) {
                 Ok(obs) => {
                     ctx.bump("dontcare_n01_returned", 1);
                     ctx.sample(|| json!({"n": n, "method": method.name(), "merges": obs.cluster.len(), "indicies": obs.indicies, "callback_invocations": env.rec.borrow().calls}));
@@ -966,7 +1249,7 @@ pub fn run(ctx: &mut Ctx) {
                 &format!("n{n}/all-rank-orders/{}-values/average+union", fam.name()),
                 &format!("n = {n}: all {total} rank orders of the {m} pairwise distances with {} base values x {{average, union}}", if fam == Family::Linear { "(rank+1)/64" } else { "3^rank/2^16" }),
             );
-            exhaustive(ctx, &env, n, fam, &[Method::Average, Method::Union]);
+            exhaustive(ctx, &env, &Inputs::flat(n), fam, &format!("{}-values", fam.name()), false, &[Method::Average, Method::Union]);
         }
     };
     families(ctx, 3);
@@ -975,11 +1258,14 @@ pub fn run(ctx: &mut Ctx) {
     // ---- n = 5: all 10! rank orders
     for &method in &METHODS {
         ctx.space(&format!("n5/all-rank-orders/{}", method.name()), &format!("n = 5: all 3628800 rank orders of the 10 pairwise distances, method {}; one case = 720 orders sharing the first 4 ranks", method.name()));
-        exhaustive(ctx, &env, 5, Family::Spread, &[method]);
+        exhaustive(ctx, &env, &Inputs::flat(5), Family::Spread, "spread-values", false, &[method]);
     }
     if thorough {
         families(ctx, 5);
         infinite(ctx, 5);
+        // 5 atoms = 10 base distances: 10! rank orders each
+        with_empties(ctx, 5, 1, &[2, 5, 3, 4], "one-empty-input");
+        related(ctx, 4, 5);
     }
 
     // ---- n = 6, 7: Kendall-tau balls around three base orders
